@@ -527,3 +527,13 @@ fn worker_body(prop: &'static dyn Prop, args: WorkerArgs) -> i32 {
     cx.checkpoint(true);
     0
 }
+
+/// cap the address space of a case-running process so that a runaway allocation in the code under
+/// test ends this process (a crash incident) instead of exhausting the machine
+pub fn limit_memory() {
+    let gib: u64 = std::env::var("VERIF_MEM_GIB").ok().and_then(|s| s.parse().ok()).unwrap_or(6);
+    let lim = libc::rlimit { rlim_cur: gib << 30, rlim_max: gib << 30 };
+    unsafe {
+        libc::setrlimit(libc::RLIMIT_AS, &lim);
+    }
+}
